@@ -206,7 +206,9 @@ def comp_case(col, rng, cidx, jobref=None):
         B.reset_log()
         probes.reset_counts()
         r = probes.run_op("composed_call", lambda: op_call(c, vals))
-        ent, _vals = observed(B.snapshot())
+        _log = B.snapshot()
+        ent, _vals = observed(_log)
+        col.generic(_log, rp2)
         col.evaluations += 1
         col.counters["c19_composed_runs"] += 1
         if any(nd["active"] is not None and nd["active"][0] in ("n", "u") and nd["active"][1] in ins for i2, nd in enumerate(sp["nodes"]) if i2 in need_nodes):
